@@ -182,7 +182,13 @@ def build_mw(d):
 def build_stack(descs, kind):
     if descs is None:
         return None
-    lst = [build_mw(d) for d in descs]
+    lst = []
+    for d in descs:
+        if d["k"] == "again":
+            if lst:
+                lst.append(lst[-1])     # the very same instance a second time, directly after itself
+            continue
+        lst.append(build_mw(d))
     if kind == "tuple":
         return tuple(lst)
     if kind == "iter":
@@ -204,6 +210,8 @@ def _mwdesc(rng, tags):
         return {"k": "drop", "ip": ip}
     if r < 0.76:
         return {"k": "boom", "n": rng.choice([1, 2, 2, 3]), "ip": ip}
+    if r < 0.80:
+        return {"k": "again", "ip": ip}
     return {"k": "shipped", "i": rng.randrange(len(SHIPPED)), "ip": ip}
 
 
